@@ -60,7 +60,9 @@ func (e *Engine) addHarnessAPI(p string) {
 		return func(c *callCtx) Value {
 			name := c.s.freshName(c.str(0))
 			c.s.inputs = append(c.s.inputs, InputRec{Name: name, Kind: kind, Vars: []string{name}})
-			return mkVar(name, w)
+			v := mkVar(name, w)
+			c.s.pinReplay(c.w, v)
+			return v
 		}
 	}
 	in[p+"vInt"] = mkInt("int", 64)
@@ -79,12 +81,15 @@ func (e *Engine) addHarnessAPI(p string) {
 	in[p+"vBool"] = func(c *callCtx) Value {
 		name := c.s.freshName(c.str(0))
 		c.s.inputs = append(c.s.inputs, InputRec{Name: name, Kind: "bool", Vars: []string{name}})
-		return mkVar(name, SBool)
+		bv := mkVar(name, SBool)
+		c.s.pinReplay(c.w, bv)
+		return bv
 	}
 	in[p+"vIntLIA"] = func(c *callCtx) Value {
 		name := c.s.freshName(c.str(0))
 		c.s.inputs = append(c.s.inputs, InputRec{Name: name, Kind: "lia", Vars: []string{name}})
 		v := mkVar(name, SInt)
+		c.s.pinReplay(c.w, v)
 		lo, hi := int64(c.args[1].(uint64)), int64(c.args[2].(uint64))
 		if !c.s.assume(c.w, mkAndB(mkCmp(OILe, mkIntC(lo), v), mkCmp(OILe, v, mkIntC(hi)))) {
 			c.s.finish("INFEASIBLE", "")
@@ -98,7 +103,9 @@ func (e *Engine) addHarnessAPI(p string) {
 		out := make([]Value, n)
 		for i := 0; i < n; i++ {
 			vars[i] = fmt.Sprintf("%s[%d]", name, i)
-			out[i] = mkVar(vars[i], 8)
+			bv := mkVar(vars[i], 8)
+			c.s.pinReplay(c.w, bv)
+			out[i] = bv
 		}
 		c.s.inputs = append(c.s.inputs, InputRec{Name: name, Kind: kind, N: n, Vars: vars})
 		return out
